@@ -216,7 +216,13 @@ def run_case(case: Dict[str, Any]) -> Dict[str, Any]:
                 of, ob = _formats(case["other_fmt"])
                 t_other = simulate_fp8(base_m) if case["other_fmt"] == "fp8_api" else simulate_format(base_m, of, ob)
                 run(t, t)
-                run(t_other, t_other)  # resets TorchDynamo, traces with the other formats
+                yo, go_ = run(t_other, t_other)  # resets TorchDynamo, traces with the other formats
+                ref_o = copy.deepcopy(m)
+                semo = QuantSemantics(of, ob)
+                yro, gro = run(ref_o, lambda *a: Interp(prog, ref_o, semo).run(*a))
+                if not torch.equal(yo, yro) or any((go_[k] is None) != (gro[k] is None) or (gro[k] is not None and not torch.equal(go_[k], gro[k])) for k in gro):
+                    viol.append({"key": ident + "|second_format_not_honoured", "msg":
+                                 f"module simulated with {case['other_fmt']} after one simulated with {fname} differs from its hand-quantised reference\n" + src})
             torch._dynamo.reset()
             y_imp, g_imp = run(t, t)
     except Exception as e:  # noqa
